@@ -164,6 +164,12 @@ class C20(GenericModelFamily):
                                "violated_clause": "binding a value cannot change the structure of the item, whatever characters it contains (text level)"}, True)
         text_finding("C20-text-unescaped-string", "text_changed_quote")
         text_finding("C20-text-set-brace-ambiguity", "text_changed_other")
+        # a bound value that changes the printed structure without a quote in a plain string and without a set
+        # anywhere near is in no listed class
+        if summ.get("text_changed_unexplained", 0):
+            ctx.violation({"family": "text oracle (print then parse)", "samples": summ.get("text_changed_unexplained_samples"),
+                           "violated_clause": "binding a value cannot change the structure of the item, whatever characters it "
+                                              "contains (text level; the value holds no set and no plain quoted string)"}, True)
 
 
 class C18(GenericModelFamily):
